@@ -77,3 +77,18 @@ package websocket
 
 //@ guarded[C09] Transport.writeWindowBufMu: writeWindowBuf
 //@ guarded[C09] Transport.readWindowBufMu: readWindowBuf
+
+// ---------------------------------------------------------------- C13 / C17: construction
+// the websocket transport compresses exactly as the negotiated parameters say
+//@ func New
+//@   props C13 C17
+//@   ghostvar en bool = false
+//@   ghostvar nct bool = false
+//@   ghostvar lvl int = 0
+//@   ghostvar wb int = 0
+//@   after call CompressConfig: en = res0.Enable
+//@   after call CompressConfig: nct = res0.DisableContextTakeover
+//@   after call CompressConfig: lvl = res0.Level
+//@   after call CompressConfig: wb = res0.WindowBits
+//@   assert call CompressConfig: arg1 == config.CompressConfig
+//@   ensures result != nil && result.compressConfig.Enable == en && result.compressConfig.DisableContextTakeover == nct && result.compressConfig.Level == lvl && result.compressConfig.WindowBits == wb && result.rxBytesCounter != nil && result.txBytesCounter != nil
